@@ -170,29 +170,43 @@ def rule_helpers(rep: Report, repo: Repo):
 
     # -- second_quantization.apply_mask_to_operator + NumberOrderedForm.filter_terms: keep / discard are complementary ------
     f = repo.find("second_quantization::apply_mask_to_operator", R)
-    outcomes = {}
-    loops = [n for n in ast.walk(f) if isinstance(n, ast.For) and norm(n.target) == "j"]
-    if len(loops) != 1:
+    from .sem import outcomes as _outcomes
+    loops = [n for n in ast.walk(f) if isinstance(n, ast.For) and not any(isinstance(x, ast.For) for s_ in n.body for x in ast.walk(s_))]
+    if len(loops) != 1 or not isinstance(loops[0].target, ast.Name):
         raise AnalysisError(R, "apply_mask_to_operator: element loop not found")
+    outer_loops = [n for n in ast.walk(f) if isinstance(n, ast.For) and loops[0] in n.body]
+    if len(outer_loops) != 1 or not isinstance(outer_loops[0].target, ast.Name):
+        raise AnalysisError(R, "apply_mask_to_operator: row loop not found")
+    I, J = outer_loops[0].target.id, loops[0].target.id
+    IJ = f"{I}, {J}"
+    table = {}
     for keep in (True, False):
-        def atom(n, keep=keep):
-            t = norm(n)
-            if t == "keep":
-                return keep
-            if t == "not keep":
-                return not keep
-            return None
-        for p in enum_paths(loops[0].body, atom):
-            empty_mask = any(norm(t) == "not mask[i, j]" and v for t, v, _ in p.choices)
-            empty_val = any(norm(t) == "not value" and v for t, v, _ in p.choices)
-            stores = [norm(e.value) for e in p.events if isinstance(e, ast.Assign) and norm(e.targets[0]) == "result[i, j]"]
-            if empty_val:
-                continue
-            outcomes[(keep, "empty mask" if empty_mask else "mask")] = stores
-    ok = outcomes.get((True, "empty mask")) == [] and outcomes.get((False, "empty mask")) == ["value"] and \
-        outcomes.get((True, "mask")) == outcomes.get((False, "mask")) == ["value.filter_terms(tuple(mask[i, j].terms), keep)"]
+        for empty_mask in (True, False):
+            def atom(n, keep=keep, empty_mask=empty_mask):
+                t = norm(canon(n))
+                if t == "keep":
+                    return keep
+                if t == f"mask[{IJ}]":
+                    return not empty_mask
+                if t == f"operator[{IJ}]":
+                    return True   # an empty operator entry is skipped: only non-empty values are of interest
+                return None
+            res = set()
+            for o in _outcomes(loops[0].body, None, env={}, atom=atom):
+                stores = []
+                for kind, st, rv in o.seq:
+                    if kind == "assign" and isinstance(st, ast.Assign) and norm(st.targets[0]) == f"result[{IJ}]":
+                        stores.append(norm(rv))
+                res.add(tuple(stores))
+            table[(keep, "empty mask" if empty_mask else "mask")] = sorted(res)
+    VAL = f"operator[{IJ}]"
+    NOF = f"NumberOrderedForm.from_expr({VAL})._combine_operators(mask[{IJ}])"
+    # (the combined mask is written back to mask[i, j] by the same unpacking, so `mask[i, j].terms` are the combined terms)
+    filt = [(f"{NOF}[0].filter_terms(tuple(mask[{IJ}].terms), keep)",)]
+    ok = table.get((True, "empty mask")) == [()] and table.get((False, "empty mask")) == [(VAL,)] and \
+        table.get((True, "mask")) == filt and table.get((False, "mask")) == filt
     rep.check(ok, R, "second_quantization::apply_mask_to_operator an empty mask entry selects nothing (keep) / everything (discard); otherwise filter_terms(mask terms, keep)",
-              str(outcomes), repo.loc("second_quantization", f))
+              str({k: [tuple(x[:90] for x in t) for t in v] for k, v in table.items()}), repo.loc("second_quantization", f))
     ft = repo.find("number_ordered_form::NumberOrderedForm::filter_terms", R)
     comps = [n for n in ast.walk(ft) if isinstance(n, ast.GeneratorExp) and n.generators[0].ifs]
     ok = False
